@@ -371,10 +371,12 @@ impl WorkerTree {
             self.forget_node(node_index);
         } else {
             let mut remove_nodes = Vec::new();
+            let mut removed_paths = Vec::new();
 
             self.node_map.retain(|node_path, node_index| {
                 if node_path.starts_with(&path) {
                     remove_nodes.push(*node_index);
+                    removed_paths.push(node_path.clone());
                     false
                 } else {
                     true
@@ -389,6 +391,11 @@ impl WorkerTree {
                     }
                 }
                 self.forget_node(node_index);
+            }
+
+            // the work that depends on a file of the removed directory has to run again
+            for removed_path in removed_paths {
+                self.update_external_dependencies(&removed_path);
             }
         }
 
